@@ -324,7 +324,21 @@ func TestBreakerMachine(t *testing.T) {
 					m.Complete(now, rt, withErr)
 				}
 				if withErr {
-					l.e.Exit(base.WithError(errors.New("biz")))
+					// the error reaches the breakers through Exit or through TraceError; a block error of a rejected downstream
+					// call is an error like any other
+					var er error = errors.New("biz")
+					switch rapid.IntRange(0, 3).Draw(t, "errorKind") {
+					case 1:
+						er = base.NewBlockErrorWithMessage(base.BlockTypeFlow, "downstream rejected")
+					case 2:
+						er = fmt.Errorf("calling downstream: %w", base.NewBlockErrorWithMessage(base.BlockTypeIsolation, "downstream busy"))
+					}
+					if rapid.Bool().Draw(t, "viaTraceError") {
+						sentinel.TraceError(l.e, er)
+						l.e.Exit()
+					} else {
+						l.e.Exit(base.WithError(er))
+					}
 				} else {
 					l.e.Exit()
 				}
